@@ -1,6 +1,6 @@
 package getoptions
 
-// Regression demonstrations for the defects D1-D9, D11, D12 (see /verif/DESIGN.md section 7).
+// Regression demonstrations for the defects D1-D9, D11-D15 (see /verif/DESIGN.md section 7).
 // Copied into a scratch copy of the repository root by /verif/bin/defects-demo; not part of /repo.
 
 import (
@@ -212,5 +212,36 @@ func TestD14DoubleDashEqualsModeIndependent(t *testing.T) {
 	}
 	if vals[0] != vals[1] || vals[1] != vals[2] {
 		t.Fatalf("D14: %v", vals)
+	}
+}
+
+// D15 (C20, C17): `--name=k` with options n, na, name: the keys n and na are prefixes of the typed
+// text; they never contribute candidates but the last of them in map order decided the
+// single-candidate hint.
+func TestD15CompletionHintDeterministic(t *testing.T) {
+	run := func() string {
+		opt := New()
+		opt.String("name", "", opt.SuggestedValues("k="))
+		opt.String("n", "", opt.SuggestedValues("zzz", "yyy"))
+		opt.String("na", "", opt.ArgName("file"))
+		buf := new(bytes.Buffer)
+		completionWriter = buf
+		exitFn = func(code int) {}
+		defer func() { completionWriter = os.Stdout; exitFn = os.Exit }()
+		os.Setenv("COMP_LINE", "./prog --name=k")
+		os.Setenv("ZSHELL", "true")
+		defer os.Unsetenv("COMP_LINE")
+		defer os.Unsetenv("ZSHELL")
+		opt.Parse([]string{"./prog", "--name=k", "./prog"})
+		return buf.String()
+	}
+	first := run()
+	for i := 0; i < 200; i++ {
+		if got := run(); got != first {
+			t.Fatalf("D15: completion differs between runs: %q vs %q", first, got)
+		}
+	}
+	if strings.Contains(first, "yyy") || strings.Contains(first, "<file>") {
+		t.Fatalf("D15: another option's values or argument name are offered: %q", first)
 	}
 }
